@@ -41,6 +41,7 @@ package conngater
 //@ ensures result == nil && cg.ds != nil ==> called(Put, 0) && ret(Put, 0, 0) == nil && strsrc(arg(Put, 0, 3)) == p
 //@ ensures result != nil ==> has(cg.blockedPeers, p) == old(has(cg.blockedPeers, p))
 //@ ensures forall q peer.ID :: q != p ==> has(cg.blockedPeers, q) == old(has(cg.blockedPeers, q))
+//@ ensures called(NewKey, 0) ==> called(String, 0) && arg(String, 0, 0) == p && arg(NewKey, 0, 0) == keyPeer + ret(String, 0, 0) && ncalls(NewKey, 0) == 1
 //@ assert before Lock#0: cg.ds != nil ==> called(Put, 0) && ret(Put, 0, 0) == nil
 //@ modifies contents(cg.blockedPeers), elems(_)
 
@@ -50,6 +51,7 @@ package conngater
 //@ ensures result == nil && cg.ds != nil ==> called(Delete, 0) && ret(Delete, 0, 0) == nil
 //@ ensures result != nil ==> has(cg.blockedPeers, p) == old(has(cg.blockedPeers, p))
 //@ ensures forall q peer.ID :: q != p ==> has(cg.blockedPeers, q) == old(has(cg.blockedPeers, q))
+//@ ensures called(NewKey, 0) ==> called(String, 0) && arg(String, 0, 0) == p && arg(NewKey, 0, 0) == keyPeer + ret(String, 0, 0) && ncalls(NewKey, 0) == 1
 //@ assert before Lock#0: cg.ds != nil ==> called(Delete, 0) && ret(Delete, 0, 0) == nil
 //@ modifies contents(cg.blockedPeers)
 
@@ -59,6 +61,8 @@ package conngater
 //@ ensures result == nil && cg.ds != nil ==> called(Put, 0) && ret(Put, 0, 0) == nil
 //@ ensures result != nil ==> forall k string :: has(cg.blockedAddrs, k) == old(has(cg.blockedAddrs, k))
 //@ ensures forall k string :: k != ip.String() ==> has(cg.blockedAddrs, k) == old(has(cg.blockedAddrs, k))
+//@ ensures called(NewKey, 0) ==> arg(NewKey, 0, 0) == keyAddr + ip.String() && ncalls(NewKey, 0) == 1
+//@ ensures called(Put, 0) ==> arg(Put, 0, 3) == ip
 //@ assert before Lock#0: cg.ds != nil ==> called(Put, 0) && ret(Put, 0, 0) == nil
 //@ modifies contents(cg.blockedAddrs), elems(_)
 
@@ -68,6 +72,7 @@ package conngater
 //@ ensures result == nil && cg.ds != nil ==> called(Delete, 0) && ret(Delete, 0, 0) == nil
 //@ ensures result != nil ==> forall k string :: has(cg.blockedAddrs, k) == old(has(cg.blockedAddrs, k))
 //@ ensures forall k string :: k != ip.String() ==> has(cg.blockedAddrs, k) == old(has(cg.blockedAddrs, k))
+//@ ensures called(NewKey, 0) ==> arg(NewKey, 0, 0) == keyAddr + ip.String() && ncalls(NewKey, 0) == 1
 //@ assert before Lock#0: cg.ds != nil ==> called(Delete, 0) && ret(Delete, 0, 0) == nil
 //@ modifies contents(cg.blockedAddrs)
 
@@ -78,6 +83,8 @@ package conngater
 //@ ensures result != nil ==> forall k string :: has(cg.blockedSubnets, k) == old(has(cg.blockedSubnets, k))
 //@ ensures forall k string :: k != ipnet.String() ==> has(cg.blockedSubnets, k) == old(has(cg.blockedSubnets, k)) &&
 //@         cg.blockedSubnets[k] == old(cg.blockedSubnets[k])
+//@ ensures called(NewKey, 0) ==> arg(NewKey, 0, 0) == keySubnet + ipnet.String() && ncalls(NewKey, 0) == 1
+//@ ensures called(Put, 0) ==> strsrc(arg(Put, 0, 3)) == ipnet.String()
 //@ assert before Lock#0: cg.ds != nil ==> called(Put, 0) && ret(Put, 0, 0) == nil
 //@ modifies contents(cg.blockedSubnets), elems(_)
 
@@ -88,6 +95,7 @@ package conngater
 //@ ensures result != nil ==> forall k string :: has(cg.blockedSubnets, k) == old(has(cg.blockedSubnets, k))
 //@ ensures forall k string :: k != ipnet.String() ==> has(cg.blockedSubnets, k) == old(has(cg.blockedSubnets, k)) &&
 //@         cg.blockedSubnets[k] == old(cg.blockedSubnets[k])
+//@ ensures called(NewKey, 0) ==> arg(NewKey, 0, 0) == keySubnet + ipnet.String() && ncalls(NewKey, 0) == 1
 //@ assert before Lock#0: cg.ds != nil ==> called(Delete, 0) && ret(Delete, 0, 0) == nil
 //@ modifies contents(cg.blockedSubnets)
 
